@@ -115,6 +115,11 @@ def structures(tier, seed):
         out.append(mk(None, {("X", 1): lk, ("Y", 0): lk}, ("X", "Y"), {"X": "extend", "Y": "fill"}))
         out.append(mk("X", {("X", 0): lk}, ("X", "Y"), {"X": "fill", "Y": "extend"}))
         out.append(mk("Y", {("Y", 1): lk}, ("X", "Y"), {"X": "periodic", "Y": "fill"}))
+    # (2a) scalars with BOTH slots of an axis linked by different kinds
+    for a in ("X", "Y"):
+        for lkL, lkR in itertools.product(LINK_KINDS, repeat=2):
+            if lkL != lkR:
+                out.append(mk(None, {(a, 0): lkL, (a, 1): lkR}, (a,), rules_ff))
     # (2b) vector components with BOTH slots of an axis linked (different kinds on the two sides)
     for kind in ("X", "Y"):
         for a in ("X", "Y"):
